@@ -52,7 +52,9 @@ REQUIRED_COUNTERS = ['optimality_syndromes_checked', 'coset_tables_built',
                      'deformed_weight_configs', 'uf_weight3_compact_errors',
                      'matching_setups_one_sector_or_explicit_weights',
                      'syndromes_given_in_another_dtype',
-                     'user_defined_noise_models']
+                     'user_defined_noise_models',
+                     'corrections_judged_after_the_batch',
+                     'sweepmatch_runs_with_non_default_budget']
 SHARD_TIMEOUT = {'quick': 900, 'thorough': 5400}
 EXHAUSTIVE = True
 EXHAUSTIVE_SCOPE = ('per (decoder, lattice) block listed in '
@@ -376,11 +378,11 @@ def errors_of_weight(n, w, full):
             yield e
 
 
-def make_decoder(dname, code, p=0.1):
+def make_decoder(dname, code, p=0.1, **options):
     from panqec.error_models import PauliErrorModel
     from pv.checks.c05 import decoder_classes
     em = PauliErrorModel(1 / 3, 1 / 3, 1 / 3)
-    return decoder_classes()[dname](code, em, p)
+    return decoder_classes()[dname](code, em, p, **options)
 
 
 def run_corr(task, out):
@@ -397,6 +399,26 @@ def run_corr(task, out):
     stride, c, nch = task['stride'], task['chunk'], task['nchunks']
     off = (task['seed'] * 13) % stride
     m = len(H)
+    batch = []
+
+    def judge_batch(batch):
+        bad = 0
+        for e, corr in batch:
+            out.count('corrections_judged_after_the_batch')
+            resid = e ^ gf2.pack(np.asarray(corr))
+            if not ech.contains(resid):
+                bad += 1
+                op = code.from_bsf(gf2.unpack(e, 2 * n))
+                out.violation(
+                    f'{mech}/not-corrected',
+                    f'weight-{task["w"]} error {op} '
+                    f'(t={(min(size) - 1) // 2}) is not returned to the '
+                    'stabilizer group by the correction decoded for it '
+                    '(corrections read after the batch)',
+                    dict(desc, error=gf2.unpack(e, 2 * n),
+                         operator={str(k): v for k, v in op.items()}))
+        del batch[:]
+        return bad
     for idx, e in enumerate(errors_of_weight(n, task['w'], task['full'])):
         if idx % stride != off or (idx // stride) % nch != c:
             continue
@@ -405,7 +427,7 @@ def run_corr(task, out):
         if s.dtype != np.uint8:
             out.count('syndromes_given_in_another_dtype')
         try:
-            corr = np.asarray(dec.decode(s))
+            corr = dec.decode(s)
         except Exception as ex:
             where = panqec_frame(ex)
             if where is None:
@@ -416,16 +438,14 @@ def run_corr(task, out):
             fails += 1
             continue
         cnt += 1
-        resid = e ^ gf2.pack(corr)
-        if not ech.contains(resid):
-            fails += 1
-            op = code.from_bsf(gf2.unpack(e, 2 * n))
-            out.violation(
-                f'{mech}/not-corrected',
-                f'weight-{task["w"]} error {op} (t={(min(size) - 1) // 2}) '
-                f'is not returned to the stabilizer group',
-                dict(desc, error=gf2.unpack(e, 2 * n),
-                     operator={str(k): v for k, v in op.items()}))
+        # corrections are collected (the returned objects themselves) and
+        # evaluated once the batch has been decoded, as a caller doing
+        # [decoder.decode(s) for s in syndromes] would
+        batch.append((e, corr))
+        if len(batch) < 48:
+            continue
+        fails += judge_batch(batch)
+    fails += judge_batch(batch)
     key = 'uf_errors_decoded' if task['decoder'] == 'UnionFindDecoder' \
         else 'low_weight_errors_decoded'
     out.count(key, cnt)
@@ -446,35 +466,47 @@ def run_single(task, out):
     H = gf2.pack_rows(code.stabilizer_matrix)
     m = len(H)
     ech = gf2.Echelon(H)
-    dec = make_decoder(task['decoder'], code)
     desc = {'decoder': task['decoder'], 'cls': cls, 'size': list(size)}
     mech = f"{task['decoder']}/{cls}/single-qubit"
     cnt = 0
-    for idx, e in enumerate(errors_of_weight(n, 1, True)):
-        if idx % task['nchunks'] != task['chunk']:
-            continue
-        s = gf2.unpack(gf2.syndrome_int(H, e, n), m).astype(
-            SYN_DTYPES[idx % len(SYN_DTYPES)])
-        if s.dtype != np.uint8:
-            out.count('syndromes_given_in_another_dtype')
-        try:
-            corr = np.asarray(dec.decode(s))
-        except Exception as ex:
-            where = panqec_frame(ex)
-            if where is None:
-                raise
-            out.violation(f'{mech}/raises-{type(ex).__name__}',
-                          f'{type(ex).__name__}: {ex} at {where}', desc)
-            continue
-        cnt += 1
-        out.count('sweepmatch_single_qubit_errors')
-        if not ech.contains(e ^ gf2.pack(corr)):
-            op = code.from_bsf(gf2.unpack(e, 2 * n))
-            letter = list(op.values())[0]
-            out.violation(f'{mech}/not-corrected/{letter}',
-                          f'single-qubit error {op} is not corrected',
-                          dict(desc, operator={str(k): v
-                                               for k, v in op.items()}))
+    # the decoder with its default options and with the smallest budgets its
+    # constructor offers (one round / sweep factor 1 already corrects every
+    # single-qubit error)
+    option_sets = [{}]
+    if task['decoder'] == 'RotatedSweepMatchDecoder':
+        option_sets += [{'max_rounds': 1}, {'max_rounds': 2}]
+    for options in option_sets:
+        dec = make_decoder(task['decoder'], code, **options)
+        omech = mech + (f"/{'+'.join(f'{k}={v}' for k, v in options.items())}"
+                        if options else '')
+        if options:
+            out.count('sweepmatch_runs_with_non_default_budget')
+        for idx, e in enumerate(errors_of_weight(n, 1, True)):
+            if idx % task['nchunks'] != task['chunk']:
+                continue
+            s = gf2.unpack(gf2.syndrome_int(H, e, n), m).astype(
+                SYN_DTYPES[idx % len(SYN_DTYPES)])
+            if s.dtype != np.uint8:
+                out.count('syndromes_given_in_another_dtype')
+            try:
+                corr = np.asarray(dec.decode(s))
+            except Exception as ex:
+                where = panqec_frame(ex)
+                if where is None:
+                    raise
+                out.violation(f'{omech}/raises-{type(ex).__name__}',
+                              f'{type(ex).__name__}: {ex} at {where}', desc)
+                continue
+            cnt += 1
+            out.count('sweepmatch_single_qubit_errors')
+            if not ech.contains(e ^ gf2.pack(corr)):
+                op = code.from_bsf(gf2.unpack(e, 2 * n))
+                letter = list(op.values())[0]
+                out.violation(f'{omech}/not-corrected/{letter}',
+                              f'single-qubit error {op} is not corrected',
+                              dict(desc, options=options,
+                                   operator={str(k): v
+                                             for k, v in op.items()}))
     out.case(dict(desc, chunk=task['chunk']), True, n=cnt, distinct=cnt,
              sample=dict(desc, errors=cnt) if task['chunk'] == 0 else None)
     if task['chunk'] == 0:
